@@ -34,7 +34,7 @@ Definition eqb_settings (a b : settings) : bool :=
   Bool.eqb (s_parental a) (s_parental b) &&
   eqb_option (eqb_list eqb_bytes) (s_blocked a) (s_blocked b).
 
-Definition dhcp_of (tbl : list (addr * bytes)) : addr -> option bytes := fun a => bget a tbl.
+Definition dhcp_of (tbl : list (addr * bytes)) : addr -> option bytes := fun a => zget a tbl.
 
 Definition model_obs finds names acfs g (ix : index) (tbl : list (addr * bytes)) (e : err) : obs :=
   (err_code e,
